@@ -543,7 +543,16 @@ def w5(model: Model, rep: Report):
             arg = None
             if withs:
                 t = withs[0][1].term
-                arg = (list(t[2]) + [v for _, v in t[3]] + [None])[0]
+                if t[0] == "call" and len(t) >= 4:
+                    arg = (list(t[2]) + [v for _, v in t[3]] + [None])[0]
+                elif t[0] == "new":
+                    arg = ([v for _, v in t[2]] + [None])[0]
+                from .common import devar as _devar
+                if arg is not None:
+                    arg = _devar(arg)
+                if arg is None or arg[0] != "dict":
+                    ds = subterms(_devar(t), lambda y: y[0] == "dict")
+                    arg = ds[0] if ds else arg
             reg_ok = arg is not None and arg[0] == "dict" and {k[2] for k, _ in arg[1] if k[0] == "enum"} == {"READOUT", "MICROWAVE", "FLUX", "RESET"}
             rep.check(ok, "C18.W5", "plot_circuit[compact inside override]", f.loc, found=f"{len(withs)} override block(s); drawing at events {draws}", required="construct + draw inside the override block",
                       what="compact drawing computes positions outside the scoped duration override (or leaves the override installed)", detail="scoped")
